@@ -24,6 +24,16 @@ class Inner(Generic[T]):
     v: T
 
 
+@attrs.define
+class PBase:
+    x: int
+
+
+@attrs.define
+class PDerived(PBase):
+    y: int = 0
+
+
 SHAPES = [
     ("bare", lambda a, b: a),
     ("list", lambda a, b: List[a]),
@@ -39,7 +49,7 @@ SHAPES = [
     ("top_annotated", lambda a, b: Annotated[a, "m"]),        # finding F25
 ]
 # (no Optional[...] among the arguments: typing flattens Optional[Optional[X]], which is typing's business, not cattrs')
-ARGS = [int, str, float, List[int], Dict[str, int], Inner[int]]
+ARGS = [int, str, float, List[int], Dict[str, int], Inner[int], PBase, PBase]
 
 
 def subst(t, env):
@@ -70,6 +80,9 @@ def sample_value(rng, t):
         return rng.choice(["a", "b", "xyz"])
     if t is float:
         return rng.choice([0.5, 1.25])
+    if t is PBase:
+        # a subclass instance where the declared type is the base: dispatch must go by the DECLARED (bound) type
+        return PBase(rng.randrange(5)) if rng.random() < 0.4 else PDerived(rng.randrange(5), rng.randrange(5, 9))
     o = typing.get_origin(t)
     a = typing.get_args(t)
     if o is Annotated:
@@ -161,6 +174,52 @@ def outcome(f):
         return ("ok", f())
     except Exception as e:
         return ("err", type(e).__name__)
+
+
+def inherit_battery(v, rng, n, hist):
+    """Non-subscripted subclasses of a parametrised generic base (class Child(Parent[X])): the inherited attributes
+    are bound through __orig_bases__; compared with the hand-substituted plain class, both directions."""
+    import types as _types
+    hist["inherit_classes"] = 0
+    hist["inherit_comparisons"] = 0
+    for ci in range(n):
+        kind = rng.choice(["attrs", "dataclass"])
+        shapes = [rng.choice(SHAPES[:6]) for _ in range(rng.randint(1, 3))]
+        arg = rng.choice([PBase, PBase, int, str, List[PBase]])
+        pann = {f"p{j}": mk(T, T) for j, (_, mk) in enumerate(shapes)}
+        P = _types.new_class(f"IP{v.seed}_{ci}", (Generic[T],), {}, lambda ns: ns.update({"__annotations__": dict(pann), "__module__": __name__}))
+        P = attrs.define(P) if kind == "attrs" else dataclasses.dataclass(P)
+        try:
+            C = _types.new_class(f"IC{v.seed}_{ci}", (P[arg],), {}, lambda ns: ns.update({"__annotations__": {"b": str}, "__module__": __name__}))
+            C = attrs.define(C) if kind == "attrs" else dataclasses.dataclass(C)
+            Clone, clone_ann = build_clone(f"I{v.seed}_{ci}", kind, {**pann, "b": str}, {T: arg})
+        except Exception:
+            continue
+        hist["inherit_classes"] += 1
+        conv = Converter(detailed_validation=rng.random() < 0.5)
+        desc = {"lane": "GEN/C17", "class": f"class {C.__name__}({P.__name__}[{arg!r}]) ({kind}), not subscripted itself",
+                "inherited_fields": {k: repr(t) for k, t in pann.items()}}
+        for _ in range(3):
+            try:
+                kw = {k: sample_value(rng, t) for k, t in clone_ann.items()}
+                gi, ci_ = C(**kw), Clone(**kw)
+            except Exception:
+                continue
+            hist["inherit_comparisons"] += 1
+            a = outcome(lambda: conv.unstructure(gi, unstructure_as=C))
+            b = outcome(lambda: conv.unstructure(ci_, unstructure_as=Clone))
+            v.count(repr(("inherit", ci, repr(kw))), True)
+            if a != b:
+                v.violation("unstructuring a subclass of a parametrised base differs from unstructuring the monomorphised copy",
+                            {**desc, "value": repr(gi), "generic": a, "clone": b})
+                continue
+            if a[0] != "ok":
+                continue
+            sa = outcome(lambda: norm(fields_of(conv.structure(a[1], C))))
+            sb = outcome(lambda: norm(fields_of(conv.structure(a[1], Clone))))
+            if sa != sb:
+                v.violation("structuring as a subclass of a parametrised base differs from structuring as the monomorphised copy",
+                            {**desc, "payload": a[1], "generic": sa, "clone": sb})
 
 
 def check_c17(v: Verdict, n_classes):
@@ -302,6 +361,7 @@ def check_c17(v: Verdict, n_classes):
                 v.violation("structuring a generic class with an unbound type parameter was not refused", {"lane": "GEN/C17", **desc, "result": repr(r[1])})
         if len(v.samples) < 3:
             v.samples.append(desc)
+    inherit_battery(v, rng, max(4, n_classes // 3), hist)
     bad = []
     shard = 300
     for k in range(0, len(cases), shard):
